@@ -210,21 +210,30 @@ def grid_pairs(ctx):
 
 
 class Env:
-    """a grid pair with everything the cases need (built once)"""
+    """a grid pair with everything the cases need; `refresh()` re-reads what the grids report NOW
+    (element coordinates can be changed through the public API between two remaps)"""
 
     def __init__(self, ux, sspec, dspec, tag):
         self.sspec, self.dspec, self.tag = sspec, dspec, tag
         self.same = sspec is dspec or sspec == dspec
         self.src = build_grid(ux, sspec)
         self.dst = self.src if self.same else build_grid(ux, dspec)
+        self.notes = set()   # e.g. "welzl": face centres were recomputed with method="welzl"
         self.counts = {}
-        self.pts = {}
-        self.gap = {}
+        self.refresh()
+
+    def refresh(self):
+        self.pts, self._gap = {}, {}
         for side, g in (("s", self.src), ("d", self.dst)):
             self.counts[side] = dict(node=int(g.n_node), face=int(g.n_face), edge=int(g.n_edge))
             for k in KINDS:
                 self.pts[side, k] = lonlat(g, k)
-                self.gap[side, k] = xyz_gap(g, k)
+
+    def gap(self, side, kind):
+        """lazily: reading face_x/edge_x makes the grid derive and store them"""
+        if (side, kind) not in self._gap:
+            self._gap[side, kind] = xyz_gap(self.src if side == "s" else self.dst, kind)
+        return self._gap[side, kind]
 
     def desc(self):
         return dict(tag=self.tag, source=describe(self.sspec), destination=describe(self.dspec),
@@ -239,8 +248,45 @@ def lean_dims(ctx, dims_codes, dkind):
     return tuple(names[int(x)] for x in a[2:])
 
 
-def run_case(ctx, ux, env: Env, case):
-    """case: method nn|idw|weights, skind, dkind, coord, lead, k, power, data (nested list) | None"""
+def unit_xyz(lon, lat):
+    lo, la = np.radians(lon), np.radians(lat)
+    return np.cos(la) * np.cos(lo), np.cos(la) * np.sin(lo), np.sin(la)
+
+
+def mutate(ux, env: Env, step):
+    """change the element coordinates a grid reports, through the public API only"""
+    import xarray as xr
+
+    g = env.src if step["side"] == "s" else env.dst
+    kind, how = step["kind"], step["how"]
+    if how == "set":  # the five public setters, mutually consistent values
+        lon, lat = np.array(step["lon"], dtype=float), np.array(step["lat"], dtype=float)
+        x, y, z = unit_xyz(lon, lat)
+        for c, v in (("lon", lon), ("lat", lat), ("x", x), ("y", y), ("z", z)):
+            setattr(g, f"{kind}_{c}", xr.DataArray(v.copy(), dims=[DIM[kind]]))
+    elif how == "welzl":
+        g.construct_face_centers(method="welzl")
+        env.notes.add("welzl")
+    elif how == "recentre":
+        g.construct_face_centers()
+    else:
+        raise ValueError(how)
+    env.refresh()
+
+
+def moved(rng, lon, lat, amp):
+    """every point displaced by about `amp` radians"""
+    x, y, z = unit_xyz(np.asarray(lon), np.asarray(lat))
+    p = np.stack([x, y, z], axis=1) + np.array([[rng.gauss(0, amp) for _ in range(3)] for _ in range(len(x))])
+    p /= np.linalg.norm(p, axis=1, keepdims=True)
+    return ([float(v) for v in np.degrees(np.arctan2(p[:, 1], p[:, 0]))],
+            [float(v) for v in np.degrees(np.arcsin(np.clip(p[:, 2], -1, 1)))])
+
+
+def run_case(ctx, ux, env: Env, case, hist=None, after=None):
+    """case: method nn|idw|weights, skind, dkind, coord, lead, k, power, data (nested list) | None
+    hist: the operations already performed on these two grids (remaps and coordinate changes);
+    after: which coordinates were changed before this remap (part of the signature)"""
     d = ctx.driver
     method, skind, dkind, coord = case["method"], case["skind"], case["dkind"], case["coord"]
     lead = tuple(case.get("lead", ()))
@@ -257,9 +303,14 @@ def run_case(ctx, ux, env: Env, case):
         dims = tuple(LEAD[: len(lead)]) + (DIM[skind],)
     dims_codes = [3 + i for i in range(len(dims) - 1)] + [KCODE[skind]]
     inp = dict(source=env.sspec, destination=env.dspec, tag=env.tag, case=dict(case, data=data.tolist() if method != "weights" else "one-hot"))
+    if hist is not None:
+        inp["history"] = list(hist)
+        inp["after"] = after
     short = dict(env.desc(), case={kk: v for kk, v in case.items() if kk != "data"})
     key = (env.tag, describe(env.sspec), describe(env.dspec), method, skind, dkind, coord, lead, k, power,
-           data.tobytes().hex()[:48], str(env.sspec.get("lon", ""))[:80])
+           data.tobytes().hex()[:48], str(env.sspec.get("lon", ""))[:80], len(hist or ()), after)
+    if hist is not None:
+        ctx.hit("history-step:" + (after or "before-any-change"))
     ctx.hit(f"{method}:{skind}->{dkind}")
     ctx.hit(f"coord={coord}")
     ctx.hit(f"rank={len(dims)}")
@@ -282,12 +333,14 @@ def run_case(ctx, ux, env: Env, case):
     if filec:
         ctx.hit("file-supplied-centres")
     # cartesian remap with centres whose xyz are not the unit vectors of their lon/lat
-    bad_xyz = coord == "cartesian" and max(env.gap["s", skind], env.gap["d", dkind]) > 1e-6
+    bad_xyz = coord == "cartesian" and max(env.gap("s", skind), env.gap("d", dkind)) > 1e-6
     adm, asis_adm = (x == "1" for x in d.ask("C12.guard", k, n_src, c["node"]).split()) if method != "nn" else (True, True)
 
     def sig(what):
         if bad_xyz:
-            return "C12/cartesian/centres-xyz-disagree-with-lonlat"
+            return "C12/cartesian/" + ("welzl-" if "welzl" in env.notes else "") + "centres-xyz-disagree-with-lonlat"
+        if after:
+            return f"C12/{'nn' if method == 'nn' else 'idw'}/{what}/after-{after}-coordinates-changed"
         if single:
             return f"C12/{'nn' if method == 'nn' else 'idw'}/single-destination/{what}"
         if ambiguous:
@@ -376,7 +429,8 @@ def run_case(ctx, ux, env: Env, case):
             # specification decide (one-hot data expose the implementation's weights)
             before = len(ctx.failures)
             if n_src <= 200 and not case.get("followup"):
-                run_case(ctx, ux, env, dict(method="weights", skind=skind, dkind=dkind, coord=coord, k=k, power=power, followup=True))
+                run_case(ctx, ux, env, dict(method="weights", skind=skind, dkind=dkind, coord=coord, k=k, power=power, followup=True),
+                         hist=hist, after=after)
             if len(ctx.failures) == before:
                 ctx.mismatch("C12/idw-value-vs-model", inp, obs, dict(maxdiff=diff))
         return
@@ -463,6 +517,74 @@ def cases_for(ctx, env: Env, budget):
     return out
 
 
+def histories(ctx, ux):
+    """remap → change the source's (then the destination's) element coordinates through the public
+    API → remap again; every remap is judged against the coordinates the grids report THEN"""
+    rng = ctx.rng
+    for rep in range(ctx.n(2, 10)):
+        for X in KINDS:
+            ms, md = meshes.hull(rng.choice([7, 9, 12]), rng), meshes.hull(rng.choice([6, 8, 10]), rng)
+            how = "set"
+            sspec = spec_of(ms)
+            if X == "face":
+                how = rng.choice(["set", "welzl", "recentre"])
+                if how == "recentre":  # file-supplied centres that construct_face_centers() overrides
+                    sspec = spec_of(ms, ms.kind + "+filecentres", off_centres(ms, rng))
+            env = Env(ux, sspec, spec_of(md), f"history({X}:{how})")
+            hist = []
+            Y = rng.choice([k for k in KINDS if k != X])
+            n_src = env.counts["s"][X]
+
+            def remaps(after, coords, extra=()):
+                for coord in coords:
+                    dk = rng.choice(KINDS)
+                    k = rng.choice(sorted({2, n_src, rng.randint(2, n_src)}))
+                    lead = rng.choice([(), (2,)])
+                    cases = [dict(method="nn", skind=X, dkind=dk, coord=coord, lead=list(lead), data=rand_data(rng, lead, n_src)),
+                             dict(method="weights", skind=X, dkind=dk, coord=coord, k=k, power=rng.choice([2, 1, 3])),
+                             dict(method="idw", skind=X, dkind=rng.choice(KINDS), coord=coord, lead=[], k=k, power=2,
+                                  data=rand_data(rng, (), n_src))] + list(extra)
+                    for c in cases:
+                        run_case(ctx, ux, env, c, hist=hist, after=after)
+                        hist.append(dict(op="remap", case=c, after=after))
+
+            # One tree wrapper is cached per grid and a request for the other coordinate system
+            # replaces it, so a stale tree can only be met when the SAME coordinate type is used
+            # on both sides of a coordinate change: c is used last before and first after it.
+            c = rng.choice(["spherical", "cartesian"])
+            if how == "recentre":  # only changes something while face_x has not been derived
+                c = "spherical"
+            c2 = "cartesian" if c == "spherical" else "spherical"
+            # another kind interleaved on the same source grid (the wrapper switches kinds and back)
+            def other(coord):
+                return [dict(method="nn", skind=Y, dkind=X, coord=coord, lead=[], data=rand_data(rng, (), env.counts["s"][Y]))]
+            remaps(None, [c] if how == "recentre" else [c2, c], other(c))
+            # 1. the SOURCE's coordinates of kind X change
+            step = dict(op="mutate", side="s", kind=X, how=how)
+            if how == "set":
+                step["lon"], step["lat"] = moved(rng, *env.pts["s", X], rng.choice([0.1, 0.2, 0.4]))
+            mutate(ux, env, step)
+            hist.append(step)
+            ctx.hit(f"history:source-{how}")
+            remaps("source", [c, c2], other(c2))
+            # 2. the DESTINATION's coordinates change (every kind, through the setters)
+            for dk in KINDS:
+                step = dict(op="mutate", side="d", kind=dk, how="set")
+                step["lon"], step["lat"] = moved(rng, *env.pts["d", dk], 0.2)
+                mutate(ux, env, step)
+                hist.append(step)
+            ctx.hit("history:destination-set")
+            remaps("destination", [c2, c], other(c))
+            # 3. the source once more (now the other coordinate type was used in between)
+            step = dict(op="mutate", side="s", kind=X, how="set")
+            step["lon"], step["lat"] = moved(rng, *env.pts["s", X], 0.3)
+            mutate(ux, env, step)
+            hist.append(step)
+            env.notes.discard("welzl")
+            ctx.hit("history:source-set-again")
+            remaps("source", [c, c2])
+
+
 def run(ctx):
     import uxarray as ux
 
@@ -485,7 +607,8 @@ def run(ctx):
     for f in sorted((common.CORPUS / "C12").glob("*.json")):
         inp = json.loads(f.read_text())["input"]
         ctx.hit("corpus")
-        run_case(ctx, ux, Env(ux, inp["source"], inp["destination"], inp["tag"]), dict(inp["case"]))
+        run_input(ctx, ux, inp)
+    histories(ctx, ux)
     pairs = grid_pairs(ctx)
     budget = ctx.n(8, 18)
     for sspec, dspec, tag in pairs:
@@ -496,9 +619,26 @@ def run(ctx):
     ctx.extra["destination_points_judged"] = ctx.stats.get("dest-points-judged", 0)
 
 
+def run_input(ctx, ux, inp):
+    """re-run exactly one stored input (a single remap, or a history ending in a remap)"""
+    env = Env(ux, inp["source"], inp["destination"], inp.get("tag", "replay"))
+    if "history" not in inp:
+        run_case(ctx, ux, env, dict(inp["case"]))
+        return
+    # re-run the whole history: the earlier remaps prime the caches exactly as they did
+    hist = []
+    for step in inp["history"]:
+        if step["op"] == "mutate":
+            mutate(ux, env, step)
+            if step["how"] == "set" and step["side"] == "s":
+                env.notes.discard("welzl")
+        else:
+            run_case(ctx, ux, env, dict(step["case"]), hist=hist, after=step.get("after"))
+        hist.append(step)
+    run_case(ctx, ux, env, dict(inp["case"]), hist=hist, after=inp.get("after"))
+
+
 def replay(ctx, rp):
     import uxarray as ux
 
-    inp = rp["input"]
-    env = Env(ux, inp["source"], inp["destination"], inp.get("tag", "replay"))
-    run_case(ctx, ux, env, dict(inp["case"]))
+    run_input(ctx, ux, rp["input"])
